@@ -1,8 +1,61 @@
 import PestModel.Model.PStateSpec
-/-! # C15 — placeholder until the theorems land. -/
-namespace PestModel.C15
-open PestModel.PS
+import PestModel.Lemmas.PStateLimit
+/-!
+# C15 — detailed error tracking is observationally transparent
 
-theorem smoke : incCall { (PState.new [] (some 1) false) with calls := some (1, 1) } = none := by decide
+Property theorems only; helper lemmas in `PestModel/Lemmas/PStateLimit*.lean` / `PStateDetail*.lean`.
+-/
+namespace PestModel.C15
+open PestModel.PS PestModel.LineCol
+
+/-- What the detailed-attempts bookkeeping guarantees across any completed call: `max_position`
+never decreases, and while it has not grown the number of recorded call stacks has not shrunk
+(this is what keeps `splice(start_index..)` in range). -/
+theorem attempts_monotone (cfg : Cfg) (fuel : Nat) (p : Prog) (s s' : PState)
+    (h : (run cfg fuel p s).state? = some s') :
+    s.pa.maxPos ≤ s'.pa.maxPos ∧
+    (s'.pa.maxPos = s.pa.maxPos → s.pa.callStacks.length ≤ s'.pa.callStacks.length) :=
+  run_paMono cfg fuel p s s' h
+
+/-- **Transparency, unconditionally**: erasing the attempt information from the outcome of a run
+gives exactly the outcome of the run with detail off — same success/failure, position, tokens,
+stack, error position and expected/unexpected rules; and the detailed run panics or runs out of
+fuel exactly when the plain run does.  (Stronger than both `detail_erasure` and `detail_no_panic`.) -/
+theorem detail_erasure_total (cfg : Cfg) (fuel : Nat) (p : Prog) (s : PState) :
+    (run cfg fuel p s).mapState PState.eraseDetail = run cfg fuel p s.eraseDetail :=
+  run_eraseDetail cfg fuel p s
+
+/-- **Transparency.** Unless the detailed run panics (excluded by `detail_no_panic`), erasing the
+attempt information from its outcome gives exactly the outcome of the run with detail off:
+same success/failure, position, tokens, stack, error position and expected/unexpected rules.
+(The hypothesis turns out not to be needed: `detail_erasure_total`.) -/
+theorem detail_erasure (cfg : Cfg) (fuel : Nat) (p : Prog) (s : PState)
+    (hnp : run cfg fuel p s ≠ .panic) :
+    (run cfg fuel p s).mapState PState.eraseDetail = run cfg fuel p s.eraseDetail := by
+  have _ := hnp
+  exact run_eraseDetail cfg fuel p s
+
+/-- **Detailed tracking never makes a parse panic**: on well-formed states a run with detail on
+panics only if the same run with detail off panics.  (Well-formedness is not needed.) -/
+theorem detail_no_panic (cfg : Cfg) (fuel : Nat) (p : Prog) (s : PState) (hwf : s.WF)
+    (h : run cfg fuel p s = .panic) : run cfg fuel p s.eraseDetail = .panic := by
+  have _ := hwf
+  rw [← run_eraseDetail, h]; rfl
+
+/-- the `splice(start_index..)` of `try_add_new_stack_rule`, the only panic site specific to detailed
+runs, is in range whenever it is reached from a completed body run. -/
+theorem splice_in_range (cfg : Cfg) (fuel : Nat) (p : Prog) (s1 ns : PState) (r : Nat)
+    (h : (run cfg fuel p s1).state? = some ns) :
+    ∃ ns', tryAddRuleToStack ns r s1.pa.callStacks.length s1.pa.maxPos = some ns' :=
+  tryAddRuleToStack_isSome (run_paMono cfg fuel p s1 ns h)
+
+/-- `max_position` always is a UTF-8 boundary inside the input (so the help message of
+`parse_attempts_error`, which is rendered by `Error::new_from_pos` at that position, can be
+rendered: C10 `render_total_pos`). -/
+theorem maxpos_boundary (cfg : Cfg) (fuel : Nat) (p : Prog) (s s' : PState) (hwf : s.WF)
+    (hb : isBoundary s.input s.pa.maxPos = true)
+    (h : (run cfg fuel p s).state? = some s') : isBoundary s'.input s'.pa.maxPos = true := by
+  rw [(run_rel cfg fuel p s s' h).input]
+  exact (run_tr cfg fuel p s s' h).maxPosBnd hwf.1 hb
 
 end PestModel.C15
